@@ -975,6 +975,15 @@ class SubTotalValue:
     def __repr__(self):
         return "SubTotal"
 
+    def __reduce__(self):
+        # group keys computed in a worker process come back as the one
+        # GROUPED object of this process, which they are compared with
+        return _get_grouped, ()
+
+
+def _get_grouped():
+    return GROUPED
+
 
 GROUPED = SubTotalValue()
 
